@@ -15,6 +15,7 @@ import GoNfsd.Lemmas.Names
 import GoNfsd.Lemmas.Refs
 import GoNfsd.Lemmas.Named
 import GoNfsd.Lemmas.Tree
+import GoNfsd.Lemmas.BlockTree
 
 namespace GoNfsd.Props.C04
 open GoNfsd.Model.Fsck GoNfsd.Gen.Consts GoNfsd.Gen.Super
@@ -410,6 +411,39 @@ example :
        (.rename (GoNfsd.Model.Fs.mkFh 2 1) [102] (GoNfsd.Model.Fs.mkFh 1 1) [103], { slot := 3 })]).1
     ((s.get 1).slots.map (·.inum), (s.get 2).slots.map (·.inum), (s.get 4).kind, (s.get 3).kind)
       = ([1, 1, 2, 3], [2, 1, 0], 0, 1) := by
+  decide
+
+/-! ### "no block has two owners" under block mapping, on the block-map model M7 -/
+
+/-- `bmap` — the only place a file acquires blocks (WRITE, hole-filling READ, the partial block
+    of a truncation) — keeps the pointer tree of the file well-formed: no block is pointed to from
+    two positions, and what the allocator still holds stays unused and zero.  Hypothesis `WFB`
+    on the state before is observed on the real file and allocator by the `blockmap` driver. -/
+theorem bmap_keeps_one_owner (s : GoNfsd.Model.BlockMap.S) (blks : List Nat) (bn : Nat)
+    (h : GoNfsd.Model.BlockMap.WFB s blks) (hbn : bn < NDIRECT + NBLKBLK + NBLKBLK * NBLKBLK) :
+    GoNfsd.Model.BlockMap.WFB (GoNfsd.Model.BlockMap.bmap s blks bn).1 (GoNfsd.Model.BlockMap.bmap s blks bn).2.1 :=
+  (GoNfsd.Model.BlockMap.bmap_ok s blks bn h hbn).wf
+
+/-- From the empty file, after ANY sequence of mappings of addressable file blocks — whatever
+    the allocator hands out, provided it never hands out a block twice (0 = out of space, at any
+    point) — the pointer tree is well-formed: in particular no disk block serves two positions. -/
+theorem one_owner_after_any_mapping_sequence (allocs bns : List Nat)
+    (hd : GoNfsd.Model.BlockMap.DistinctNZ allocs)
+    (hb : ∀ bn ∈ bns, bn < NDIRECT + NBLKBLK + NBLKBLK * NBLKBLK) :
+    GoNfsd.Model.BlockMap.WFB
+      (GoNfsd.Model.BlockMap.bmapAll { st := GoNfsd.Model.BlockMap.emptyStore, allocs := allocs } (List.replicate (NDIRECT + 2) 0) bns).1
+      (GoNfsd.Model.BlockMap.bmapAll { st := GoNfsd.Model.BlockMap.emptyStore, allocs := allocs } (List.replicate (NDIRECT + 2) 0) bns).2 :=
+  GoNfsd.Model.BlockMap.bmapAll_wf _ _ bns (GoNfsd.Model.BlockMap.WFB_empty allocs hd) hb
+
+/-- Non-vacuity: mapping a direct, an indirect and two double-indirect blocks from the empty file
+    with an allocator that runs dry in between builds a three-level tree. -/
+example :
+    let r := GoNfsd.Model.BlockMap.bmapAll { st := GoNfsd.Model.BlockMap.emptyStore, allocs := [100, 101, 102, 103, 104, 105, 0, 106, 107] }
+      (List.replicate (NDIRECT + 2) 0) [3, 8 + 5, 8 + 512 + 512 * 2 + 7, 8 + 512 + 512 * 2 + 9, 8 + 512 + 512 * 4]
+    (r.2, GoNfsd.Model.BlockMap.lookup r.1.st r.2 3, GoNfsd.Model.BlockMap.lookup r.1.st r.2 13,
+      GoNfsd.Model.BlockMap.lookup r.1.st r.2 (8 + 512 + 512 * 2 + 7), GoNfsd.Model.BlockMap.lookup r.1.st r.2 (8 + 512 + 512 * 2 + 9),
+      GoNfsd.Model.BlockMap.lookup r.1.st r.2 (8 + 512 + 512 * 4), r.1.allocs)
+      = ([0, 0, 0, 100, 0, 0, 0, 0, 101, 103], 100, 102, 105, 0, 107, []) := by
   decide
 
 end GoNfsd.Props.C04
